@@ -11,8 +11,8 @@ git -C "$wt" apply "$d/patch.diff" || { echo "patch does not apply to HEAD"; exi
 cd /verif
 VERIF_REPO="$wt" VCHECK_ONLY=$low ./run "$id" "$tier" > /tmp/mutant.$id.$$.log 2>&1
 rc=$?
-grep -E "^C[0-9]+ (HELD|VIOLATED|INCONCLUSIVE)|BUILD" /tmp/mutant.$id.$$.log | cut -c1-200
-grep -A2 "^VIOLATION" /tmp/mutant.$id.$$.log | grep -v "^--" | head -12 | cut -c1-260
+grep -a -E "^C[0-9]+ (HELD|VIOLATED|INCONCLUSIVE)|BUILD" /tmp/mutant.$id.$$.log | cut -c1-200
+grep -a -A2 "^VIOLATION" /tmp/mutant.$id.$$.log | grep -v "^--" | head -12 | cut -c1-260
 rm -f /tmp/mutant.$id.$$.log
 echo "exit=$rc"
 exit $rc
